@@ -7,7 +7,7 @@ from .. import fsmon, model, sig
 
 PROP = "C19"
 LEVEL = "exploration"
-MONITORS = ["get_project_nearest", "get_project_nosearch", "get_job_innermost", "lookup_error_not_guess",
+MONITORS = ["layout_changed_between_queries", "get_project_nearest", "get_project_nosearch", "get_job_innermost", "lookup_error_not_guess",
             "init_project_idempotent"]
 RULE = (
     "Generated directory trees to depth 5 mixing initialised projects, projects nested inside job directories and "
@@ -100,8 +100,9 @@ def nearest_project(tree, path):
     """Nearest lexical ancestor-or-self that is an initialised project."""
     p = path
     while True:
-        # a directory reached through a symlink is a project if the directory it points to is one
-        if p in tree.projects or (os.path.islink(p) and os.path.realpath(p) in tree.projects):
+        # a directory reached through a symlink (the link itself or a directory below a linked job directory) is a
+        # project if the directory it resolves to is one
+        if p in tree.projects or os.path.realpath(p) in tree.projects:
             return p
         up = os.path.dirname(p)
         if up == p:
@@ -143,7 +144,8 @@ def run_case(ctx, case):
     if tree.projects:
         queries.append(os.path.join(tree.projects[0], "missing_dir"))
     old_cwd = os.getcwd()
-    try:
+
+    def sweep(phase):
         for q in queries:
             exists = os.path.exists(q)
             for mode in ("abs", "rel-root", "cwd", "rel-parent"):
@@ -179,11 +181,11 @@ def run_case(ctx, case):
                         ctx.violation("get_project-guesses", "get_project returned / raised something else where no project encloses the path",
                                       {"path": lexical, "exists": exists, "got": getattr(got, "path", None), "err": repr(err),
                                        "projects": tree.projects})
-                        return
+                        return True
                 elif err is not None or got.path != want:
                     ctx.violation("get_project-not-nearest", "get_project did not return the nearest enclosing project",
-                                  {"path": lexical, "mode": mode, "want": want, "got": getattr(got, "path", None), "err": repr(err)})
-                    return
+                                  {"path": lexical, "mode": mode, "want": want, "got": getattr(got, "path", None), "err": repr(err), "phase": phase})
+                    return True
                 # ---- search=False
                 ctx.monitor("get_project_nosearch")
                 got2, err2 = sig.exc_name(signac.get_project, arg, search=False) if arg is not None else sig.exc_name(signac.get_project, search=False)
@@ -192,11 +194,11 @@ def run_case(ctx, case):
                     if not isinstance(err2, LookupError):
                         ctx.violation("get_project-nosearch-walks-up", "get_project(search=False) answered for a directory that is not itself a project",
                                       {"path": lexical, "got": getattr(got2, "path", None), "err": repr(err2)})
-                        return
+                        return True
                 elif err2 is not None or got2.path != want2:
                     ctx.violation("get_project-nosearch-wrong", "get_project(search=False) wrong for a project directory",
                                   {"path": lexical, "got": getattr(got2, "path", None), "err": repr(err2)})
-                    return
+                    return True
                 # ---- get_job
                 ctx.monitor("get_job_innermost")
                 wj = expected_job(tree, lexical) if exists else None
@@ -206,18 +208,18 @@ def run_case(ctx, case):
                     if not isinstance(ej, LookupError):
                         ctx.violation("get_job-guesses", "get_job returned / raised something else where no job directory contains the path",
                                       {"path": lexical, "got": (gj.id, gj.project.path) if gj is not None else None, "err": repr(ej)})
-                        return
+                        return True
                 else:
                     if ej is not None or gj.id != wj[1] or gj.project.path != wj[0]:
                         ctx.violation("get_job-not-innermost", "get_job did not return the innermost job directory with its project",
                                       {"path": lexical, "mode": mode, "want": wj,
                                        "got": (gj.id, gj.project.path) if gj is not None else None, "err": repr(ej)})
-                        return
+                        return True
                     # also through the class method of the found project
                     gj2, ej2 = sig.exc_name(gj.project.get_job, lexical)
                     if ej2 is not None or gj2.id != wj[1]:
                         ctx.violation("get_job-not-innermost", "Project.get_job disagrees", {"path": lexical, "err": repr(ej2)})
-                        return
+                        return True
                 enclosing = 0
                 p = lexical
                 while p != os.path.dirname(p):
@@ -225,6 +227,32 @@ def run_case(ctx, case):
                     p = os.path.dirname(p)
                 if enclosing >= 2 or wj is not None:
                     ctx.distinct("nontrivial", [case["seed"], os.path.relpath(lexical, root), mode])
+        return False
+
+    try:
+        if sweep("built"):
+            return
+        # the layout changes while the process lives: a project appears nearer to paths already asked about, then one
+        # disappears; every answer must describe the layout at the time of the call
+        if case["seed"] % 2 == 0:
+            cands = [q for q in queries if os.path.isdir(q) and not os.path.islink(q) and os.path.realpath(q) == q
+                     and q not in tree.projects and os.path.basename(q) != "workspace" and q != root
+                     and not model.is_id(os.path.basename(q))]
+            if cands:
+                newp = rng.choice(sorted(cands))
+                os.chdir(old_cwd)
+                signac.init_project(newp)
+                tree.projects.append(newp)
+                ctx.monitor("layout_changed_between_queries")
+                if sweep("project-added"):
+                    return
+                if case["seed"] % 4 == 0:
+                    import shutil
+                    shutil.rmtree(os.path.join(newp, ".signac"))
+                    tree.projects.remove(newp)
+                    ctx.monitor("layout_changed_between_queries")
+                    if sweep("project-removed"):
+                        return
         os.chdir(old_cwd)
         # ---- init_project idempotence
         for proj in tree.projects:
